@@ -24,6 +24,7 @@ import (
 	"sync"
 
 	"github.com/cloudwego/eino/internal/safe"
+	"github.com/cloudwego/eino/internal/verifhook"
 )
 
 type channel interface {
@@ -267,13 +268,17 @@ type taskManager struct {
 }
 
 func (t *taskManager) executor(currentTask *task) {
+	verifhook.Enter("tm.exec")
+	defer verifhook.Exit()
 	defer func() {
 		panicInfo := recover()
 		if panicInfo != nil {
 			currentTask.output = nil
 			currentTask.err = safe.NewPanicErr(panicInfo, debug.Stack())
 		}
+		verifhook.Y("tm.push.pre")
 		t.mu.Lock()
+		verifhook.Ev("tm.push", currentTask.nodeKey)
 		t.l.PushBack(currentTask)
 		t.updateChan()
 		t.mu.Unlock()
@@ -306,6 +311,7 @@ func (t *taskManager) submit(tasks []*task) error {
 	}
 	for _, currentTask := range tasks {
 		t.num += 1
+		verifhook.Spawn("tm.exec")
 		go t.executor(currentTask)
 	}
 	if syncTask != nil {
@@ -331,7 +337,10 @@ func (t *taskManager) waitOne() (*task, bool) {
 		return nil, false
 	}
 	t.num--
+	verifhook.Y("tm.wait.pre")
 	ta := <-t.done
+	verifhook.Y("tm.wait.post")
+	verifhook.Ev("tm.collect", ta.nodeKey)
 	t.mu.Lock()
 	t.updateChan()
 	t.mu.Unlock()
@@ -364,6 +373,7 @@ func (t *taskManager) updateChan() {
 	for t.l.Len() > 0 {
 		select {
 		case t.done <- t.l.Front().Value.(*task):
+			verifhook.Ev("tm.handoff", t.l.Front().Value.(*task).nodeKey)
 			t.l.Remove(t.l.Front())
 		default:
 			return
